@@ -66,6 +66,11 @@ def run(P, rep, tier):
     from . import c07
 
     rep.attempt(c07.r5_fresh_view, P, rep, ctx, "C08.R7")
+    from .common import r_path_prefix_tests
+
+    rep.attempt(r_path_prefix_tests, P, rep, ctx, "C06.R11", {"container.interface", "container.wrappers"})
+    # a failed user operation leaves user nodes alone (node operation rules of C06.R2: nothing is destroyed on the error path)
+    rep.attempt(c06.r2_node_ops, P, rep, ctx)
     rep.floor("C08.R1", 25, "protocol members")
     rep.floor("C08.R2", 12, "tainted flows")
     rep.floor("C08.R3", 8)
